@@ -334,7 +334,7 @@ def cases(tier, seed, shard, nshards):
                 k += 1
                 if k % nshards == shard:
                     yield {"site": site, "d": d, "label": label, "n": n}
-    cnt = (16000 if tier == "quick" else 800000) // nshards
+    cnt = (120000 if tier == "quick" else 1600000) // nshards
     rnd = random.Random("C07:%d:%d" % (seed, shard))
     sites = list(SITES)
     for i in range(cnt):
